@@ -172,6 +172,7 @@ type World struct {
 	heldTaken      map[string]chan struct{}
 	spinStop  chan struct{} // events family: readers spinning on the view
 	spinWG    sync.WaitGroup
+	spinPause int32
 	lastStore iface.Store // address family: the store of the last successful createdb
 	acSimple  bool     // scenario flag ac=simple: the `simple` access controller instead of the default `ipfs` one
 	acWrite   []string // its write list
